@@ -2,7 +2,7 @@
    the mechanism model (counters, destruction flags, vtable calls) refines the handle-multiset
    specification (no counter; alive / count / shareable derived from the handles) step by step. *)
 From MptV Require Import Base.Mem C15.RefcountModel C15.RefcountSpec C15.RefcountCounter C15.RefcountInv
-  C15.RefcountSteps C15.RefcountOps C15.RefcountRun C15.RefcountRel C15.RefcountFrame C15.RefcountSim.
+  C15.RefcountSteps C15.RefcountFr C15.RefcountOps C15.RefcountRun C15.RefcountRel C15.RefcountFrame C15.RefcountSim.
 Local Open Scope nat_scope.
 
 (* ---------- the abstraction FUNCTION commutes with the step, up to records of destroyed objects ----------
@@ -151,12 +151,13 @@ Qed.
 Lemma assign_l s ss op si d :
   Refines s ss -> assign_op op = Some (si, d) ->
   shareable_opt ss (slot s si) = true ->
+  tmismatch (kind_at s) (slot s si) (slot s d) = false ->
   guard (hs s) (kind_at s) (held s) op = true ->
   exists s' t, step s op = Ok (s', t) /\ t <> OE /\ Refines s' (sput ss d (slot s si)) /\
     hs s' = set_nth d (slot s si) (hs s) /\
     forall o, cnt (flat_map o2l (hs s')) o + ind (slot s d) o = cnt (flat_map o2l (hs s)) o + ind (slot s si) o.
 Proof.
-  intros RF Hop Sh Hg. pose proof RF as ((I & P) & HS & K).
+  intros RF Hop Sh Tm Hg. pose proof RF as ((I & P) & HS & K).
   destruct (sim_step s ss op RF) as (s' & Es & RF').
   assert (Hd : d < NSLOT).
   { destruct op; try discriminate; cbn [assign_op] in Hop; injection Hop as -> ->; cbn [guard] in Hg; split_guard Hg;
@@ -164,7 +165,7 @@ Proof.
   assert (Q : fst (sstep ss op) = sput ss d (slot s si) /\ snd (sstep ss op) <> OE).
   { unfold sstep. rewrite (guard_ref s ss op RF), Hg.
     destruct op; try discriminate; cbn [assign_op] in Hop; injection Hop as -> ->; cbn [sexec]; unfold s_share;
-      rewrite !(sslot_ref s ss RF), Sh.
+      rewrite !(sslot_ref s ss RF), ?(tmismatch_ref s ss _ _ K), ?Tm, Sh.
     - split; [reflexivity|discriminate].
     - destruct (eq_opt (slot s si) (slot s d)) eqn:Q; cbn [fst snd]; [|split; [reflexivity|discriminate]].
       split; [|discriminate]. assert (slot s si = slot s d).
@@ -180,4 +181,29 @@ Proof.
   split; [exact RF'|].
   assert (H' : hs s' = set_nth d (slot s si) (hs s)) by (rewrite <- (Refines_hs _ _ RF'), <- HS; reflexivity).
   split; [exact H'|]. intros o. rewrite H'. apply in_slots_set. rewrite (inv_len s I). exact Hd.
+Qed.
+
+(* ---------- the plot data object: modify / advance / reference-free calls never touch a slot ----------
+   whoever shares the stage buffer (an array, another rawdata object, a meta buffer) keeps exactly what it held:
+   a modify on a shared buffer gives the OBJECT a new buffer (copy on write) *)
+Definition raw_local (o : op) : bool :=
+  match o with ORawModify _ | ORawAdvance _ | ORawCall _ _ => true | _ => false end.
+
+Lemma shs_sset_inner ss o v : shs (sset_inner ss o v) = shs ss.
+Proof. unfold sset_inner. destruct (nth_error (sobjs ss) o); reflexivity. Qed.
+
+Lemma raw_local_slots_spec ss op : raw_local op = true -> shs (fst (sstep ss op)) = shs ss.
+Proof.
+  intros H. unfold sstep. destruct (guard _ _ _ op); [|reflexivity].
+  destruct op; try discriminate; cbn [sexec]; try reflexivity;
+    (destruct (sslot ss m) as [o|]; [|reflexivity]); (destruct (nth_error (sobjs ss) o) as [x|]; [|reflexivity]);
+    (destruct (sinner x) as [b|]; [try destruct (stotal ss b <? 2)%N|]); try reflexivity;
+    unfold snew; cbn [fst]; rewrite shs_sset_inner; reflexivity.
+Qed.
+
+Lemma raw_local_l s ss op : Refines s ss -> raw_local op = true ->
+  exists s', step s op = Ok (s', snd (sstep ss op)) /\ Refines s' (fst (sstep ss op)) /\ hs s' = hs s.
+Proof.
+  intros RF H. destruct (sim_step s ss op RF) as (s' & E & RF'). exists s'. split; [exact E|]. split; [exact RF'|].
+  rewrite <- (Refines_hs _ _ RF'), (raw_local_slots_spec ss op H). apply (Refines_hs _ _ RF).
 Qed.
